@@ -181,6 +181,9 @@ func checkPanicFree(c *Check, p *Program, rule string, fn *ssa.Function, pl *Pan
 				} else if rangeIndexOK(x, base, idx) {
 					ok, why = true, "range loop index over the same slice"
 				}
+				if !ok && d.data != nil && d.linIndex(base, idx, b) {
+					ok, why = true, "linear facts (guards, sub-slice geometry, summary H) imply 0 <= index < length"
+				}
 				if ok {
 					nE2++
 				}
@@ -250,6 +253,13 @@ func checkPanicFree(c *Check, p *Program, rule string, fn *ssa.Function, pl *Pan
 						}
 					}
 				}
+				linIn, linWithin := false, false
+				if isIn && d.data != nil && (!ok || (x.High != nil && ruleC != "")) {
+					linIn, linWithin = d.linSlice(x, b)
+				}
+				if !ok && linIn {
+					ok, why = true, "linear facts (guards, sub-slice geometry, summary H) imply low <= high <= length"
+				}
 				if ok && !e3 {
 					nE2++
 				}
@@ -259,7 +269,7 @@ func checkPanicFree(c *Check, p *Program, rule string, fn *ssa.Function, pl *Pan
 				c.Decide(ok, rule, k, pos, why, "slice expression can be out of range for some input: "+why)
 				// (c) bytes beyond len(input) are never exposed
 				if isIn && x.High != nil && ruleC != "" {
-					okC := off == nil && d.LE(x.High, b)
+					okC := (off == nil && d.LE(x.High, b)) || linWithin
 					c.Decide(okC, ruleC, k+" high bound within the input", pos, "high bound <= len(input): no byte beyond the datagram is exposed", "the slice's high bound is not provably <= len(input): bytes beyond the input's length (remnants of an earlier datagram in the same buffer) can be read")
 				}
 			case *ssa.TypeAssert:
@@ -455,7 +465,7 @@ func checkC01(c *Check, p *Program) {
 				}
 			} else {
 				for _, v := range resultValues(r, 0) {
-					if !d.LE(v, r.Block()) {
+					if !d.LE(v, r.Block()) && !d.linLE(v, r.Block()) {
 						okH = false
 					}
 				}
